@@ -172,7 +172,7 @@ def uniform_families(chk):
                         "samples": [{"family": "UniformAntiprismFamily", "n": 7}], "failures": len(fails), "exhaustive": True})
 
 
-def exact_vertices(planes, types, dists, tol=1e-9):
+def exact_vertices(planes, types, dists, tol=1e-9, merge=1e-7):
     """independent vertex enumeration of {x : n_i.x <= d_type(i)}: all plane triples, float64 with a separation check"""
     m = len(planes)
     b = np.asarray(dists)[types]
@@ -183,7 +183,7 @@ def exact_vertices(planes, types, dists, tol=1e-9):
             continue
         x = np.linalg.solve(A, b[[i, j, k]])
         if np.all(planes @ x <= b + tol):
-            if not any(np.linalg.norm(x - y) < 1e-7 for y in verts):
+            if not any(np.linalg.norm(x - y) < merge for y in verts):
                 verts.append(x)
     return np.array(verts)
 
@@ -203,35 +203,62 @@ def truncation_families(chk):
         types = np.asarray(fam._plane_types)
         As = list(np.linspace(alo, ahi, k)) + list(rng.uniform(alo, ahi, 2))
         Cs = list(np.linspace(clo, chi, k)) + list(rng.uniform(clo, chi, 2))
-        for a_ in As:
-            for c_ in Cs:
+        pts_ac = [(a_, c_) for a_ in As for c_ in Cs]
+        # parameters a little inside each edge of the rectangle and next to the diagonals, where vertices of the exact
+        # intersection are close together without coinciding
+        am, cm = 0.5 * (alo + ahi) + 0.0371 * (ahi - alo), 0.5 * (clo + chi) - 0.0293 * (chi - clo)
+        for d_ in (3e-5, 3e-4, 3e-3):
+            pts_ac += [(alo + d_, cm), (ahi - d_, cm), (am, clo + d_), (am, chi - d_),
+                       (am, min(chi, max(clo, (alo + chi) - am + d_))), (am, min(chi, max(clo, am * (clo / alo) + d_)))]
+        for a_, c_ in pts_ac:
                 n_eval += 1
-                want = exact_vertices(planes, types, [a_, b, c_])
-                # only parameter points whose exact vertices are well separated are in the property's scope
+                want = exact_vertices(planes, types, [a_, b, c_], merge=1e-9)
                 if len(want) < 4:
                     continue
                 dmin = min(np.linalg.norm(p - q) for p, q in itertools.combinations(want, 2))
-                if dmin < 1e-4:
-                    continue
                 try:
                     shape = fam.get_shape(a_, c_)
+                except ValueError as e:
+                    # allowed only where vertices of the exact intersection nearly coincide
+                    if dmin >= 1e-4:
+                        fails.append((f"{fam_name}(a={a_:.6f},c={c_:.6f})", {"raised": f"ValueError: {e}"[:100], "exact_vertices": len(want),
+                                                                               "closest_pair_of_exact_vertices": float(dmin)}))
+                    continue
                 except Exception as e:  # noqa: BLE001
-                    fails.append((f"{fam_name}(a={a_:.4f},c={c_:.4f})", {"raised": f"{type(e).__name__}: {e}"[:100], "exact_vertices": len(want)}))
+                    fails.append((f"{fam_name}(a={a_:.6f},c={c_:.6f})", {"raised": f"{type(e).__name__}: {e}"[:100], "exact_vertices": len(want)}))
                     continue
                 got = np.asarray(shape.vertices)
-                ok = len(got) == len(want) and all(min(np.linalg.norm(g - w) for w in want) < 1e-6 for g in got)
+                # same shape: every exact vertex has a returned vertex within 1e-5 and conversely (Hausdorff distance of the
+                # vertex sets); the vertex count must agree where the exact vertices are at least 1e-4 apart
+                d1 = max(min(np.linalg.norm(g - w) for w in want) for g in got)
+                d2 = max(min(np.linalg.norm(g - w) for g in got) for w in want)
+                ok = max(d1, d2) < 1e-5 and (dmin < 1e-4 or len(got) == len(want))
                 if not ok:
-                    fails.append((f"{fam_name}(a={a_:.4f},c={c_:.4f})", {"vertices": len(got), "exact_vertices": len(want)}))
-    for t_ in np.linspace(0, 1, 11):
+                    fails.append((f"{fam_name}(a={a_:.6f},c={c_:.6f})", {"a": float(a_), "c": float(c_), "vertices": len(got), "exact_vertices": len(want),
+                                                                           "closest_pair_of_exact_vertices": float(dmin),
+                                                                           "hausdorff_distance_of_vertex_sets": float(max(d1, d2))}))
+    for t_ in list(np.linspace(0, 1, 11)) + [3e-5, 3e-4, 1 - 3e-4, 1 - 3e-5, 0.5 + 3e-5]:
         n_eval += 1
+        want = exact_vertices(np.asarray(F.Family323Plus._planes, float), np.asarray(F.Family323Plus._plane_types), [1, 1, 3 - 2 * t_],
+                              merge=1e-9)
+        dmin = min(np.linalg.norm(p - q) for p, q in itertools.combinations(want, 2)) if len(want) >= 2 else 0.0
         try:
             s = F.TruncatedTetrahedronFamily.get_shape(float(t_))
-        except Exception as e:  # noqa: BLE001
-            fails.append((f"TruncatedTetrahedronFamily(t={t_:.2f})", {"raised": f"{type(e).__name__}: {e}"[:150]}))
+        except ValueError as e:
+            if dmin >= 1e-4:
+                fails.append((f"TruncatedTetrahedronFamily(t={t_:.6f})", {"raised": f"ValueError: {e}"[:150], "closest_pair_of_exact_vertices": float(dmin)}))
             continue
-        want = exact_vertices(np.asarray(F.Family323Plus._planes, float), np.asarray(F.Family323Plus._plane_types), [1, 1, 3 - 2 * t_])
-        if len(want) >= 4 and min(np.linalg.norm(p - q) for p, q in itertools.combinations(want, 2)) > 1e-4 and len(s.vertices) != len(want):
-            fails.append((f"TruncatedTetrahedronFamily(t={t_:.2f})", {"vertices": len(s.vertices), "exact_vertices": len(want)}))
+        except Exception as e:  # noqa: BLE001
+            fails.append((f"TruncatedTetrahedronFamily(t={t_:.6f})", {"raised": f"{type(e).__name__}: {e}"[:150]}))
+            continue
+        if len(want) >= 4:
+            got = np.asarray(s.vertices)
+            d1 = max(min(np.linalg.norm(g - w) for w in want) for g in got)
+            d2 = max(min(np.linalg.norm(g - w) for g in got) for w in want)
+            if max(d1, d2) >= 1e-5 or (dmin >= 1e-4 and len(got) != len(want)):
+                fails.append((f"TruncatedTetrahedronFamily(t={t_:.6f})", {"t": float(t_), "vertices": len(got), "exact_vertices": len(want),
+                                                                          "closest_pair_of_exact_vertices": float(dmin),
+                                                                          "hausdorff_distance_of_vertex_sets": float(max(d1, d2))}))
     for fam_name, ((alo, ahi), (clo, chi), b) in DOMAINS.items():
         fam = getattr(F, fam_name)
         for a_, c_ in ((alo - 0.01, clo), (ahi + 0.01, clo), (alo, clo - 0.01), (alo, chi + 0.01)):
@@ -258,9 +285,11 @@ def truncation_families(chk):
                    kind="bounded", replay=lambda m, info=info, name=name: (True, {"case": name, **info}))
     if not fails:
         chk.record("truncation:grid", fkey, "bounded-pass", "independent-vertex-enumeration", kind="bounded", detail=f"{n_eval} parameter points")
-    chk.bounded.append({"clause": "get_shape(a,c) has exactly the vertices of the half-space intersection (where they are separated by > 1e-4); "
+    chk.bounded.append({"clause": "get_shape(a,c) returns the half-space intersection: vertex sets within Hausdorff distance 1e-5, equal vertex "
+                                  "counts where the exact vertices are >= 1e-4 apart, ValueError only where they are closer; "
                                   "out-of-domain parameters raise; 323+ corner solids have the documented vertex / face counts",
-                        "bound": f"{k}x{k} grid + 2x2 seeded points per family rectangle incl. edges and corners; 11 truncations",
+                        "bound": f"{k}x{k} grid + 2x2 seeded points per family rectangle incl. edges and corners, 18 points at 3e-5 / 3e-4 / 3e-3 "
+                                 "from the edges and diagonals; 16 truncations incl. 3e-5 from 0, 1/2 and 1",
                         "evaluations": n_eval, "distinct_nontrivial": n_eval, "rule": "distinct = parameter points",
                         "samples": [{"family": "Family423", "a": 1.5, "c": 2.5}], "failures": len(fails), "exhaustive": False})
 
